@@ -138,7 +138,7 @@ class ReuseHistory(Engine):
         for record in scenario["records"]:
             seq = list(record["seq"])
             for gene in record["genes"]:
-                if rng.random() < 0.5:
+                if rng.random() < 0.5 and len(gene["parts"]) == 1:
                     start = gene["parts"][0][0] + 3 * rng.randrange(1, 20)
                     codon = "TTA" if gene["strand"] == 1 else "TAA"
                     seq[start:start + 3] = list(codon)
